@@ -297,6 +297,8 @@ func (e *execState) directOracles(bo *blockObs) {
 					tot.Add(tot, tr.Amt)
 				}
 			}
+			// ---------- C04: uniform price within rounding, from the implementation's own records and transfers
+			e.c04Settlement(bo, a, recv)
 			// a bidder who is also the auctioneer: count via allocation events is impossible from transfers alone; handled by refinement
 			if tot.Cmp(bigFromStr(a.SellAmt)) > 0 {
 				V("C05", "settle.oversold", "settle", fmt.Sprintf("auction %d distributed %s of %s offered", a.ID, tot, a.SellAmt))
@@ -723,7 +725,11 @@ func bucket(n int) string {
 func (e *execState) finish(last *Snap) {
 	st := e.res.Stats
 	for k, v := range e.model.Relax {
-		st.Relax[k] += v
+		if strings.HasPrefix(k, "probe:") {
+			st.Probes[strings.TrimPrefix(k, "probe:")] += v
+		} else {
+			st.Relax[k] += v
+		}
 	}
 	var sigs []string
 	for _, a := range last.Auctions {
@@ -749,4 +755,103 @@ func (e *execState) finish(last *Snap) {
 	}
 	sort.Strings(fk)
 	st.Sig = strings.Join(sigs, ";") + "|" + strings.Join(fk, ",")
+}
+
+// c04Settlement: every winner pays the same clearing price per coin received, at least
+// price x quantity, less than one smallest paying unit more per matched bid, never more than
+// reserved and never above the own bid; a bidder who wins nothing gets everything back. Fixed
+// price: each bidder receives exactly the quantities of the recorded bids.
+func (e *execState) c04Settlement(bo *blockObs, a *SAuction, recv map[string]*big.Int) {
+	V := func(rule, key, detail string) { e.res.addV("C04", rule, key, detail, bo.Idx, -1) }
+	reserved := map[string]*big.Int{}
+	nMatched := map[string]int{}
+	for j := range a.Bids {
+		b := &a.Bids[j]
+		if reserved[b.Bidder] == nil {
+			reserved[b.Bidder] = new(big.Int)
+		}
+		reserved[b.Bidder].Add(reserved[b.Bidder], sbidReserve(a, b))
+		if b.Matched {
+			nMatched[b.Bidder]++
+		}
+	}
+	refund := map[string]*big.Int{}
+	for _, tr := range normCalls(bo.Begin) {
+		if tr.From == a.PayEscrow && tr.Denom == a.PayDenom && tr.To != a.VestEscrow {
+			if _, isBidder := reserved[tr.To]; isBidder && !(tr.To == a.Auctioneer && len(a.Vesting) == 0 && refund[tr.To] != nil) {
+				if refund[tr.To] == nil {
+					refund[tr.To] = new(big.Int)
+				}
+				refund[tr.To].Add(refund[tr.To], tr.Amt)
+			}
+		}
+	}
+	if a.Type == TypeFixed {
+		for bidder := range reserved {
+			want := new(big.Int)
+			for j := range a.Bids {
+				if a.Bids[j].Bidder == bidder {
+					want.Add(want, sbidQty(a, &a.Bids[j]))
+				}
+			}
+			got := recv[bidder]
+			if got == nil {
+				got = new(big.Int)
+			}
+			if bidder != a.Auctioneer && got.Cmp(want) != 0 {
+				V("fixed.quantity", "fixed", fmt.Sprintf("auction %d: %s received %s, the recorded bids buy %s at the fixed price", a.ID, short(bidder), got, want))
+			}
+		}
+		return
+	}
+	p, ok := parseDec(a.MatchedPrice)
+	if !ok {
+		return
+	}
+	for _, bidder := range sortedKeys(reserved) {
+		if bidder == a.Auctioneer {
+			continue // the auctioneer bidding in the own auction: transfers to the same address cannot be told apart
+		}
+		q := recv[bidder]
+		if q == nil {
+			q = new(big.Int)
+		}
+		rf := refund[bidder]
+		if rf == nil {
+			rf = new(big.Int)
+		}
+		pay := new(big.Int).Sub(reserved[bidder], rf)
+		if pay.Sign() < 0 {
+			V("batch.refund_above_reservation", "refund", fmt.Sprintf("auction %d: %s was refunded %s of a reservation of %s", a.ID, short(bidder), rf, reserved[bidder]))
+			continue
+		}
+		if q.Sign() == 0 {
+			if pay.Sign() != 0 {
+				V("batch.loser_paid", "refund", fmt.Sprintf("auction %d: %s received nothing but paid %s (reserved %s, refunded %s)", a.ID, short(bidder), pay, reserved[bidder], rf))
+			}
+			continue
+		}
+		if p.Sign() == 0 {
+			V("batch.price_missing", "price", fmt.Sprintf("auction %d: %s received %s coins but the published clearing price is 0", a.ID, short(bidder), q))
+			continue
+		}
+		lo := ceilMulDec(q, p) // pay >= p*q  <=>  pay >= ceil(p*q)
+		k := nMatched[bidder]
+		if k < 1 {
+			k = 1
+		}
+		// pay < p*q + k
+		hi := new(big.Int).Add(new(big.Int).Mul(q, p), new(big.Int).Mul(big.NewInt(int64(k)), decUnit))
+		if pay.Cmp(lo) < 0 || new(big.Int).Mul(pay, decUnit).Cmp(hi) >= 0 {
+			V("batch.payment_bounds", "payment", fmt.Sprintf("auction %d: %s received %s at clearing price %s and paid %s; allowed [%s, price*quantity + %d)", a.ID, short(bidder), q, a.MatchedPrice, pay, lo, k))
+		}
+		for j := range a.Bids {
+			b := &a.Bids[j]
+			if b.Bidder == bidder && b.Matched {
+				if bp, _ := parseDec(b.Price); bp.Cmp(p) < 0 {
+					V("batch.price_above_bid", "price", fmt.Sprintf("auction %d: bid %d at %s is matched at the higher clearing price %s", a.ID, b.ID, b.Price, a.MatchedPrice))
+				}
+			}
+		}
+	}
 }
